@@ -270,6 +270,12 @@ def run_impl(mode, case, scratch, slots=1, tag="x", timeout=40.0):
                          dev_mode_force_sync_tasks=sync, runner_cls="ThreadRunner",
                          runner_loop_sleep_time_sec=0.002, invocation_wait_results_sleep_time_sec=0.002,
                          min_threads=slots, max_threads=slots)
+    # Pynenc creates its components lazily with an unlocked check-then-create: a first use from the runner
+    # thread and the client thread at the same moment can build two in-memory orchestrators / data stores
+    # (seen as KeyError on an id the other instance holds).  Not C19's subject: build them here, up front.
+    for comp in ("conf", "logger", "orchestrator", "trigger", "broker", "state_backend", "serializer", "client_data_store"):
+        getattr(app, comp)
+    _ = app.orchestrator.blocking_control
     reg = T.Registry()
     T.REG = reg
     T.bind(app, reg, needed(case))
@@ -359,7 +365,7 @@ def _work(job):
     world.quiet()
     try:
         # a source change that makes retried invocations hang would otherwise cost the full limit per case
-        limit = 20.0 if (_HANGS is None or _HANGS.value < 4) else 3.0
+        limit = 20.0 if (_HANGS is None or _HANGS.value < 4) else 1.5
         obs = run_impl(mode, case, scratch, slots, tag=str(idx), timeout=limit)
         if _HANGS is not None and (obs["out"] == ["hang"] or obs.get("unfinished")):
             with _HANGS.get_lock():
@@ -540,6 +546,10 @@ def evaluate_model(ctx: Ctx, cases, dropped):
 
 def main(ctx: Ctx) -> int:
     import multiprocessing as mp
+    import warnings
+    warnings.simplefilter("ignore")
+    threading.excepthook = lambda a: None      # worker threads re-raise task exceptions by design
+    sys.setswitchinterval(0.0005)
     world.quiet()
     info = ctx.translate("sync_dist", sync_dist.translate, "gen/SyncDist_gen.v")
     ctx.prove("Props/C19.v")
@@ -672,7 +682,10 @@ def main(ctx: Ctx) -> int:
         "a group's subtree uses one exception, so the exception its parent sees does not depend on completion order",
         "serialiser oracle (state backend exception round trip) measured per run and given to run_dist as tr_drop",
         "distributed runs use the real ThreadRunner in a thread, 2 ms loop sleeps, GIL switch interval 0.5 ms; verdicts use "
-        "outcome, per-node execution counts and final num_retries only",
+        "outcome, per-node execution counts and final num_retries only; a verdict of a distributed run must reproduce on a "
+        "re-run of the same case (unreproduced ones are listed under transient_unreproduced)",
+        "the app's lazily created components are instantiated in the main thread before the runner and client threads start "
+        "(their unlocked check-then-create can otherwise build two in-memory orchestrators / data stores)",
     ]
     ctx.trusted += [
         "harness/translate/sync_dist.py recognises the retry handlers, set_invocation_retry, Task.retriable_exceptions, "
